@@ -304,7 +304,8 @@ fn rand_cfg(ctx: &mut Ctx) -> Cfg {
     let world = [1u64, 1, 2, 3][ctx.rng.random_range(0..4)];
     Cfg {
         strategy: ctx.rng.random_range(0..3),
-        seed: ctx.rng.random_range(0..50),
+        // 0 is the value an unset seed arrives as (unwrap_or_default)
+        seed: if ctx.rng.random_range(0..4) == 0 { 0 } else { ctx.rng.random_range(0..50) },
         epoch: ctx.rng.random_range(0..3),
         threads: [0u64, 1, 2, 4][ctx.rng.random_range(0..4)],
         buffer: [0u64, 1, 4, 16][ctx.rng.random_range(0..4)],
